@@ -7,6 +7,7 @@ import (
 	"os"
 	"os/exec"
 	"path/filepath"
+	"regexp"
 	"sort"
 	"strconv"
 	"strings"
@@ -302,12 +303,20 @@ func main() {
 		data, _ := json.MarshalIndent(expected, "", " ")
 		os.WriteFile(expPath, data, 0o644)
 	} else if *only == "" {
+		// names are compared modulo call / instruction ordinals, so that adding or removing a call in a
+		// function does not rename its other obligations into "missing" ones
 		have := map[string]bool{}
 		for _, o := range mine {
-			have[o.Name] = true
+			have[normName(o.Name)] = true
 		}
+		seen := map[string]bool{}
 		for _, n := range expected[*prop] {
-			if !have[n] {
+			nn := normName(n)
+			if seen[nn] {
+				continue
+			}
+			seen[nn] = true
+			if !have[nn] {
 				o := &Obligation{Name: n, Kind: "missing", Status: "error", Note: "obligation registered for this property was not generated on this tree (function or clause gone, or a path no longer reaches it)"}
 				nObl++
 				violations = append(violations, o)
@@ -566,3 +575,7 @@ func runWitness(repo, verifDir string, k *KnownFinding) string {
 	fmt.Fprintf(os.Stderr, "witness %s: inconclusive output:\n%s\n", k.Witness, trunc(s, 2000))
 	return "skipped"
 }
+
+var ordRe = regexp.MustCompile(`(call|Call|IndexAddr|FieldAddr|Slice|TypeAssert|UnOp|BinOp|MakeSlice|Lookup|MapUpdate|Store|defer)\d+`)
+
+func normName(n string) string { return ordRe.ReplaceAllString(n, "$1*") }
